@@ -14,7 +14,7 @@ def make_cases(chk):
     for i in range(n):
         rng = random.Random(chk.seed * 100003 + 20000 + i)
         gens.append(gen.history(rng, rng.randint(6, hi), weights=WEIGHTS, trace=(i % 6 == 5)))
-    return gen.whole_source_cases(chk.seed) + gen.repeated_well_cases(chk.seed) + gen.twin_lot_cases(chk.seed) + gen.long_decimal_cases(chk.seed) + gen.huge_ratio_cases(chk.seed) + gens
+    return gen.whole_source_cases(chk.seed) + gen.repeated_well_cases(chk.seed) + gen.twin_lot_cases(chk.seed) + gen.long_decimal_cases(chk.seed) + gen.huge_ratio_cases(chk.seed) + gen.short_well_cases(chk.seed) + gens
 
 
 def nontrivial(prog, obs):
